@@ -25,6 +25,7 @@
 #include "SM/WakePotentialMap.hpp"
 #include "IO/HDF5File.hpp"
 #include "IO/ProgramOptions.hpp"
+#include "VerifHooks.hpp"
 
 #include <chrono>
 #include <climits>
@@ -83,6 +84,7 @@ int main(int argc, char** argv)
     //Install signal handler for SIGINT
     signal(SIGINT, Display::SIGINT_handler);
     #endif // INOVESA_ENABLE_INTERRUPT
+    VERIF_IP("setup:after_signal");
 
     /*
      * Program options might be such that the program does not have
@@ -104,6 +106,7 @@ int main(int argc, char** argv)
     #endif // INOVESA_USE_OPENCL
 
     std::string ofname = opts.getOutFile();
+    VERIF_IP("setup:after_parse");
 
     #if DEBUG != 1
     if (ofname.empty() && !opts.getForceRun()
@@ -141,6 +144,7 @@ int main(int argc, char** argv)
     }
 
     oclhptr_t oclh(nullptr);
+    VERIF_IP("setup:after_display");
 
     #if INOVESA_USE_OPENCL == 1
     if (cldev > 0) {
@@ -355,6 +359,7 @@ int main(int argc, char** argv)
     uint32_t laststep=std::ceil(steps*rotations);
 
     std::string startdistfile = opts.getStartDistFile();
+    VERIF_IP("setup:after_parameters");
 
 
     /*
@@ -457,6 +462,7 @@ int main(int argc, char** argv)
      * copied for the other ones.
      */
     std::shared_ptr<PhaseSpace> grid_t1;
+    VERIF_IP("setup:after_info");
 
 
     /*
@@ -524,6 +530,7 @@ int main(int argc, char** argv)
         }
     }
 
+    VERIF_IP("setup:after_grid");
     // an initial renormalization might be applied
     if (renormalize >= 0) {
         grid_t1->updateXProjection();
@@ -531,8 +538,10 @@ int main(int argc, char** argv)
         grid_t1->normalize(); // works on XProjection
     }
 
+    VERIF_IP("setup:after_initial_normalize");
     auto grid_t2 = std::make_shared<PhaseSpace>(*grid_t1);
     auto grid_t3 = std::make_shared<PhaseSpace>(*grid_t1);
+    VERIF_IP("setup:after_grid_copies");
 
     // find highest peak for display (and information in the log)
     meshdata_t maxval = std::numeric_limits<meshdata_t>::min();
@@ -590,6 +599,7 @@ int main(int argc, char** argv)
     #endif // INOVESSA_USE_GUI
 
 
+    VERIF_IP("setup:before_rfmap");
     // RF map
     std::shared_ptr<DynamicRFKickMap> drfm;
     std::shared_ptr<SourceMap> rfm;
@@ -648,6 +658,7 @@ int main(int argc, char** argv)
                                      interpol_clamp , oclh ));
         }
     }
+    VERIF_IP("setup:after_rfmap");
     { // context of information printing, not needed in the program
     sstream.str("");
     auto syncphase = std::asin(V0/V_RF)/two_pi<double>()*360;
@@ -678,6 +689,7 @@ int main(int argc, char** argv)
                                         , E0,interpolationtype,interpol_clamp
                                         , oclh );
 
+    VERIF_IP("setup:after_driftmap");
     // time constant for damping and diffusion
     const timeaxis_t  e1 = (t_damp > 0) ? 2.0/(fs*t_damp*steps) : 0;
 
@@ -708,6 +720,7 @@ int main(int argc, char** argv)
 
 
 
+    VERIF_IP("setup:after_fpmap");
     /*
      * Note: There are two used impedances,
      * one for beam dynamics and one for CSR.
@@ -720,6 +733,7 @@ int main(int argc, char** argv)
                                  , fmax,R_bend,f_rev,gap,use_csr
                                  , s,xi,collimator_radius,impedance_file);
 
+    VERIF_IP("setup:after_wake_impedance");
     Display::printText("For CSR computation:");
     std::shared_ptr<Impedance> rdtn_impedance
             = vfps::makeImpedance( padded_bins
@@ -727,6 +741,7 @@ int main(int argc, char** argv)
                                  , fmax,R_bend,f_rev,(gap>0)?gap:-1);
 
 
+    VERIF_IP("setup:after_rdtn_impedance");
     // field for radiation (not for self-interaction)
     ElectricField rdtn_field( grid_t1,rdtn_impedance,bucketnumbers
                             , 0 // no spacing
@@ -737,6 +752,7 @@ int main(int argc, char** argv)
      * Part modeling the self-interaction of the electron-bunch.              *
      **************************************************************************/
 
+    VERIF_IP("setup:after_rdtn_field");
     ElectricField* wake_field = nullptr;
 
     // (generic) source map, will be executed in the main loop
@@ -762,6 +778,7 @@ int main(int argc, char** argv)
         wm = new Identity( grid_t1,grid_t2,oclh);
     }
 
+    VERIF_IP("setup:after_wake_field");
     /* Load coordinates for particle tracking.
      * Particle tracking is for visualization puproses only,
      * actual beam dynamics may not be perfectly accurate.
@@ -787,6 +804,7 @@ int main(int argc, char** argv)
                           + " particles.");
     }
 
+    VERIF_IP("setup:after_tracking");
     // initialze the rest of the display elements
     #if INOVESA_USE_OPENGL == 1
     if (display != nullptr) {
@@ -880,7 +898,9 @@ int main(int argc, char** argv)
     }
 
 
+    VERIF_IP("setup:after_output_file");
     Display::printText("Starting the simulation.");
+    VERIF_IP("start:after_message");
 
     // time between two status updates (in seconds)
     const auto updatetime = 2.0f;
@@ -891,7 +911,9 @@ int main(int argc, char** argv)
 
     // 1) the integral
     grid_t1->updateXProjection();
+    VERIF_IP("start:after_xprojection");
     grid_t1->integrate();
+    VERIF_IP("start:after_integrate");
     #if INOVESA_USE_OPENCL == 1
     if (oclh) {  // Synchronise here since variance uses _integral
         grid_t1->syncCLMem(OCLH::clCopyDirection::dev2cpu);
@@ -900,11 +922,14 @@ int main(int argc, char** argv)
 
     // 2) the energy spread (variance in Y direction)
     grid_t1->updateYProjection();
+    VERIF_IP("start:after_yprojection");
     grid_t1->variance(1);
+    VERIF_IP("start:after_variance");
 
     Display::printText(status_string(grid_t1,0,rotations),false);
 
     #if INOVESA_USE_HDF5 == 1
+    VERIF_IP("start:after_status");
     const auto h5save = opts.getSavePhaseSpace();
     // end of preparation to save results
 
@@ -913,11 +938,14 @@ int main(int argc, char** argv)
         if (wake_field != nullptr) {
             // padded bunch and wake profiles
             wake_field->wakePotential();
+            VERIF_IP("start:after_wakepotential");
             hdf_file->appendPadded(wake_field);
+            VERIF_IP("start:after_append_padded");
         }
         if (h5save == 0) {
             // phase space (if not saved anyways)
             hdf_file->append(*grid_t1,0,HDF5File::AppendType::PhaseSpace);
+            VERIF_IP("start:after_append_ps0");
         }
     }
     #endif
@@ -945,11 +973,14 @@ int main(int argc, char** argv)
      * main simulation loop
      * (everything inside this loop will be run a multitude of times)
      */
+    VERIF_IP("loop:before");
     while (simulationstep<laststep && !Display::abort) {
+        VERIF_IP("loop:head");
         if (wkm != nullptr) {
             // works on XProjection
             wkm->update();
         }
+        VERIF_IP("loop:after_wake_update");
         if (renormalize > 0 && simulationstep%renormalize == 0) {
             // works on XProjection
             grid_t1->integrateAndNormalize();
@@ -958,13 +989,19 @@ int main(int argc, char** argv)
             grid_t1->integrate();
         }
 
+        VERIF_IP("loop:after_integrate");
         if (outstep > 0 && simulationstep%outstep == 0) {
 
             // works on XProjection
+            VERIF_IP("out:enter");
             grid_t1->integrate();
+            VERIF_IP("out:after_integrate");
             grid_t1->variance(0);
+            VERIF_IP("out:after_variance0");
             grid_t1->updateYProjection();
+            VERIF_IP("out:after_yprojection");
             grid_t1->variance(1);
+            VERIF_IP("out:after_variance1");
             #if INOVESA_USE_OPENCL == 1
             if (oclh) {
                 grid_t1->syncCLMem(OCLH::clCopyDirection::dev2cpu);
@@ -983,20 +1020,27 @@ int main(int argc, char** argv)
 
                 hdf_file->append(*grid_t1,
                         static_cast<double>(simulationstep)/steps, at);
+                VERIF_IP("out:after_append_ps");
                 rdtn_field.updateCSR(fc);
+                VERIF_IP("out:after_updatecsr");
                 hdf_file->append(&rdtn_field);
+                VERIF_IP("out:after_append_csr");
                 if (wkm != nullptr) {
                     hdf_file->append(wkm);
                 }
+                VERIF_IP("out:after_append_wake");
                 hdf_file->appendTracks(trackme);
+                VERIF_IP("out:after_append_tracks");
 
                 if (drfm) {
                     hdf_file->appendRFKicks(drfm->getPastModulation());
                 }
             }
+                VERIF_IP("out:after_append_rfkicks");
             #endif // INOVESA_USE_HDF5
             #if INOVESA_USE_HDF5 == 1 || INOVESA_USE_OPENGL == 1
             outstepnr++;
+            VERIF_IP("out:after_outstepnr");
             #endif
             #if INOVESA_USE_OPENGL == 1
             if (display != nullptr) {
@@ -1030,18 +1074,29 @@ int main(int argc, char** argv)
             #endif // INOVESSA_USE_GUI
             Display::printText(status_string(grid_t1,static_cast<float>(simulationstep)/steps,
                                rotations),false,updatetime);
+            VERIF_IP("out:after_status");
         }
+        VERIF_IP("loop:before_wm");
         wm->apply();
+        VERIF_IP("loop:after_wm_apply");
         wm->applyToAll(trackme);
+        VERIF_IP("loop:after_wm_track");
         rfm->apply();
+        VERIF_IP("loop:after_rfm_apply");
         rfm->applyToAll(trackme);
+        VERIF_IP("loop:after_rfm_track");
         drm->apply();
+        VERIF_IP("loop:after_drm_apply");
         drm->applyToAll(trackme);
+        VERIF_IP("loop:after_drm_track");
         fpm->apply();
+        VERIF_IP("loop:after_fpm_apply");
         fpm->applyToAll(trackme);
+        VERIF_IP("loop:after_fpm_track");
 
         // udate for next time step
         grid_t1->updateXProjection();
+        VERIF_IP("loop:after_xprojection");
 
         #if INOVESA_USE_OPENCL == 1
         if (oclh) {
@@ -1050,7 +1105,9 @@ int main(int argc, char** argv)
         #endif // INOVESA_USE_OPENCL
 
         simulationstep++;
+        VERIF_IP("loop:after_increment");
     } // end of main simulation loop
+    VERIF_IP("final:after_loop");
 
     #if INOVESA_USE_HDF5 == 1
     // save final result
@@ -1058,6 +1115,7 @@ int main(int argc, char** argv)
         if (wkm != nullptr) {
             wkm->update();
         }
+        VERIF_IP("final:after_wake_update");
         /* Without renormalization at this point
          * the last time step might behave slightly different
          * from the ones before.
@@ -1069,9 +1127,13 @@ int main(int argc, char** argv)
             // works on XProjection
             grid_t1->integrate();
         }
+        VERIF_IP("final:after_integrate");
         grid_t1->variance(0);
+        VERIF_IP("final:after_variance0");
         grid_t1->updateYProjection();
+        VERIF_IP("final:after_yprojection");
         grid_t1->variance(1);
+        VERIF_IP("final:after_variance1");
         #if INOVESA_USE_OPENCL == 1
         if (oclh) {
             grid_t1->syncCLMem(OCLH::clCopyDirection::dev2cpu);
@@ -1084,20 +1146,27 @@ int main(int argc, char** argv)
         hdf_file->append(*grid_t1,
                          static_cast<double>(simulationstep)/steps,
                          HDF5File::AppendType::All);
+        VERIF_IP("final:after_append_ps");
         rdtn_field.updateCSR(fc);
+        VERIF_IP("final:after_updatecsr");
         hdf_file->append(&rdtn_field);
+        VERIF_IP("final:after_append_csr");
         if (wkm != nullptr) {
             hdf_file->append(wkm);
         }
+        VERIF_IP("final:after_append_wake");
         hdf_file->appendTracks(trackme);
+        VERIF_IP("final:after_append_tracks");
 
         if (drfm) {
             hdf_file->appendRFKicks(drfm->getPastModulation());
         }
+        VERIF_IP("final:after_append_rfkicks");
         if (wake_field != nullptr) {
             hdf_file->appendPadded(wake_field);
         }
     }
+        VERIF_IP("final:after_append_padded");
     #endif // INOVESA_USE_HDF5
     #if INOVESA_USE_PNG == 1
     if ( isOfFileType(".png",ofname)) {
@@ -1105,16 +1174,19 @@ int main(int argc, char** argv)
     }
     #endif
 
+    VERIF_IP("final:before_status");
     // Print the last status.
     Display::printText(status_string(
                            grid_t1, static_cast<float>(
                                simulationstep)/steps, rotations));
 
+    VERIF_IP("final:after_status");
     delete wake_field;
 
     delete wm;
     delete fpm;
 
+    VERIF_IP("final:after_delete");
     // Print Aborted instead of Finished if it was aborted. Also for log file.
     if(Display::abort) {
         Display::printText("Aborted.");
@@ -1122,6 +1194,7 @@ int main(int argc, char** argv)
         Display::printText("Finished.");
     }
 
+    VERIF_IP("final:before_return");
     return EXIT_SUCCESS;
 }
 
